@@ -44,6 +44,41 @@ use std::{
 /// Logging target for the file.
 const LOG_TARGET: &str = "litep2p::ipfs::kademlia::store";
 
+/// The clock the store reads. Without the `verif` feature this is `Instant::now()`.
+#[cfg(not(feature = "verif"))]
+#[inline(always)]
+fn now() -> std::time::Instant {
+    std::time::Instant::now()
+}
+
+/// The clock the store reads: `Instant::now()` unless the verification harness has installed a
+/// logical time for the current thread with [`verif_clock::set`].
+#[cfg(feature = "verif")]
+fn now() -> std::time::Instant {
+    verif_clock::now()
+}
+
+/// Verification hook: a per-thread override of the clock read by [`MemoryStore`].
+#[cfg(feature = "verif")]
+pub mod verif_clock {
+    use std::{cell::Cell, time::Instant};
+
+    thread_local! {
+        static NOW: Cell<Option<Instant>> = const { Cell::new(None) };
+    }
+
+    /// `Some(t)`: every clock read of a `MemoryStore` on this thread returns `t` until changed.
+    /// `None`: back to `Instant::now()`.
+    pub fn set(now: Option<Instant>) {
+        NOW.with(|cell| cell.set(now));
+    }
+
+    /// What the store's clock reads right now.
+    pub fn now() -> Instant {
+        NOW.with(|cell| cell.get()).unwrap_or_else(Instant::now)
+    }
+}
+
 /// Memory store events.
 #[derive(Debug, PartialEq, Eq)]
 pub enum MemoryStoreAction {
@@ -101,7 +136,7 @@ impl MemoryStore {
         let is_expired = self
             .records
             .get(key)
-            .is_some_and(|record| record.is_expired(std::time::Instant::now()));
+            .is_some_and(|record| record.is_expired(now()));
 
         if is_expired {
             self.records.remove(key);
@@ -160,7 +195,7 @@ impl MemoryStore {
     /// Returns a non-empty list of providers, if any.
     pub fn get_providers(&mut self, key: &Key) -> Vec<ContentProvider> {
         let drop_key = self.provider_keys.get_mut(key).is_some_and(|providers| {
-            let now = std::time::Instant::now();
+            let now = now();
             providers.retain(|p| !p.is_expired(now));
 
             providers.is_empty()
@@ -198,7 +233,7 @@ impl MemoryStore {
                 key,
                 provider: provider.peer,
                 addresses: provider.addresses,
-                expires: std::time::Instant::now() + self.config.provider_ttl,
+                expires: now() + self.config.provider_ttl,
             };
             record.addresses.truncate(self.config.max_provider_addresses);
             record
@@ -358,6 +393,26 @@ impl MemoryStore {
     }
 }
 
+/// Verification hook: a provider record as the store keeps it.
+#[cfg(feature = "verif")]
+#[derive(Debug, Clone, PartialEq, Eq)]
+pub struct VerifProviderRecord {
+    pub provider: PeerId,
+    pub addresses: Vec<crate::Multiaddr>,
+    pub expires: std::time::Instant,
+}
+
+#[cfg(feature = "verif")]
+impl From<&ProviderRecord> for VerifProviderRecord {
+    fn from(record: &ProviderRecord) -> Self {
+        Self {
+            provider: record.provider,
+            addresses: record.addresses.clone(),
+            expires: record.expires,
+        }
+    }
+}
+
 /// Verification hooks: read accessors for the private maps.
 #[cfg(feature = "verif")]
 impl MemoryStore {
@@ -376,6 +431,48 @@ impl MemoryStore {
     /// Number of armed provider refresh timers.
     pub fn verif_refresh_timers(&self) -> usize {
         self.pending_provider_refresh.len()
+    }
+
+    /// `local_providers` with the provider and quorum stored for every key.
+    pub fn verif_local_providers_full(&self) -> Vec<(Key, ContentProvider, Quorum)> {
+        self.local_providers
+            .iter()
+            .map(|(key, (provider, quorum))| (key.clone(), provider.clone(), *quorum))
+            .collect()
+    }
+
+    /// Number of refresh futures in `pending_provider_refresh` (fired or not).
+    pub fn verif_pending_refresh_len(&self) -> usize {
+        self.pending_provider_refresh.len()
+    }
+
+    /// The configuration the store was built with.
+    pub fn verif_config(&self) -> &MemoryStoreConfig {
+        &self.config
+    }
+
+    /// Let logical time pass: every stored expiry instant (records with an expiry, provider
+    /// records) moves `by` into the past. Returns `false` if an instant could not be moved that
+    /// far back (it is left unchanged then).
+    pub fn verif_age(&mut self, by: Duration) -> bool {
+        let mut ok = true;
+        for record in self.records.values_mut() {
+            if let Some(expires) = record.expires {
+                match expires.checked_sub(by) {
+                    Some(earlier) => record.expires = Some(earlier),
+                    None => ok = false,
+                }
+            }
+        }
+        for providers in self.provider_keys.values_mut() {
+            for provider in providers.iter_mut() {
+                match provider.expires.checked_sub(by) {
+                    Some(earlier) => provider.expires = earlier,
+                    None => ok = false,
+                }
+            }
+        }
+        ok
     }
 }
 
